@@ -90,7 +90,7 @@ Definition err_eqb (a b : err) : bool :=
 
 Definition event_eqb (a b : event) : bool :=
   match a, b with
-  | EDeliver x, EDeliver y | EFail x, EFail y | ESent x, ESent y => msg_eqb x y
+  | EDeliver x, EDeliver y | EFail x, EFail y | ERefused x, ERefused y | ESent x, ESent y => msg_eqb x y
   | EError x, EError y => err_eqb x y
   | EAssert, EAssert => true
   | _, _ => false
